@@ -9,7 +9,7 @@ from vlib import *
 
 HOOK_FLAGS = ['-O1', '-DNDEBUG', '-DUNODB_DETAIL_WITH_STATS', '-DUNODB_SPINLOCK_LOOP_VALUE=1', '-DUNODB_DETAIL_VERIF_HOOKS']
 N = 4
-PROPS = {'C05': ['Properties/Properties_C05.v'], 'C06': ['Properties/Properties_C06.v']}
+PROPS = {'C05': ['Properties/Properties_C05.v'], 'C06': ['Properties/Properties_C06.v', 'Properties/Properties_C06b.v']}
 
 
 def enabled_ops(reg, n):
@@ -167,6 +167,9 @@ FINE_PROGRAMS = [
     'SRPRQ|SQPQ',
     'SQQE|SRE|SRQE',                  # sole thread leaving while others register, retire and leave
     'S+2QQ+H|1S+3RQE|3SE|3SQQ',
+    'SQ+3RE|1SQ+3RE|2S+QQQ',          # two threads leave with pending requests while a third is inside one epoch change
+    'SQ+3RP|1SQ+3RPQ|2S+QQQ',         # ... pause / resume instead of exit
+    'S+3RQ+6Q+9E|1S+4RQ+7Q+9E|2S+5Q+8+QQQ',   # both leave with previous-interval requests inside the third thread's epoch change
 ]
 
 
@@ -203,7 +206,7 @@ def fine_stage(res, pid, tier):
     def run(arg):
         i, prog = arg
         return prog, sh([os.path.join(BIN, 'qsbr_sched'), '--prog', prog, '--bound', str(bound), '--max', str(maxe),
-                         '--random', str(nrand), '--seed', str(seed() + i)], timeout=3000)
+                         '--random', str(nrand), '--seed', str(seed() + i)], timeout=3000 if thorough else 420)
 
     with ThreadPoolExecutor(max_workers=8) as ex:
         outs = list(ex.map(run, list(enumerate(progs))))
